@@ -14,6 +14,7 @@ import Proofs.FlatDoc
 import Proofs.FlatOrder
 import Proofs.FlatQsP
 import Proofs.FlatRet
+import Proofs.FlatDate
 import Proofs.FlatNatural
 import Proofs.FlatRound
 import Proofs.FlatExamples
@@ -71,6 +72,9 @@ theorem documented_strict (cfg : Cfg) (fields : List Fld) (ms : Members) (doc : 
     decode facts03 cfg fields doc = .ok (.obj (expAttrs fields ms)) :=
   decode_documented_strict facts03 (by decide) cfg fields ms doc hstrict hsoft (by simp [facts03]) hwf hkeys hwt
     hcontig hp
+
+/-- twelve elements with strict arrays are accepted by the current tree (model, computed) -/
+example : Ex.isOk (decode facts03 ⟨true, false, Ex.dot⟩ Ex.sig Ex.twelve) = true := by decide +kernel
 
 /-- the order `sorted(doc.items(), key=...)` uses puts the keys of a request index-first: of two
     written keys that agree up to some array, the one with the smaller index is not the larger -/
@@ -192,7 +196,7 @@ theorem return_exact (mime : Text) (hdrFields : List Fld) (hp : PrimHeader hdrFi
     (response mime hdrFields (.obj attrs) (.leaf v)).1.head? = some ("Content-Type".toList, mime) ∧
     (response mime hdrFields (.obj attrs) (.leaf v)).1.getLast? =
       some ("Content-Length".toList, natText (utf8Enc text).length) ∧
-    ∀ n occ t hv htext, (n, occ, t) ∈ hdrFields → getAttr attrs n = .leaf hv → leafText hv = some htext →
+    ∀ n occ t hv htext, (n, occ, t) ∈ hdrFields → getAttr attrs n = .leaf hv → hdrText hv = some htext →
       (n, htext) ∈ (response mime hdrFields (.obj attrs) (.leaf v)).1 := by
   have hb := response_body mime hdrFields (.obj attrs) v text ht
   have hf := response_frame mime hdrFields (.obj attrs) (.leaf v)
@@ -200,6 +204,20 @@ theorem return_exact (mime : Text) (hdrFields : List Fld) (hp : PrimHeader hdrFi
   · rw [hf.2, hb.1]
   · intro n occ t hv htext hmem hget htx
     exact response_header mime hdrFields hp attrs (.leaf v) n occ t hmem hv htext hget htx
+
+/-- A declared out-header member of type DateTime (`__out_header__`, e.g. `Expires`) is sent as an
+    RFC 1123 date in GMT that denotes the SAME INSTANT as the value that was set: an aware value
+    of any UTC offset is converted (not relabelled), a naive value is taken as GMT. Other declared
+    members (Integer, Unicode, Boolean) carry their exact text (`return_exact`). -/
+theorem out_header_datetime_same_instant (mime : Text) (hdrFields : List Fld) (hp : PrimHeader hdrFields)
+    (attrs : Attrs) (ret : RetVal) (n : Text) (occ : Occ) (t : Ty) (x : DateTime)
+    (hf : (n, occ, t) ∈ hdrFields) (hv : getAttr attrs n = .leaf (.dt x))
+    (hx : x.valid = true) (hfirst : ¬ (x.date.y = 1 ∧ x.date.m = 1 ∧ x.date.d = 1)) :
+    (n, rfc1123 (toUtc x)) ∈ (response mime hdrFields (.obj attrs) ret).1 ∧
+    (toUtc x).tz = some 0 ∧ instantSec (toUtc x) = instantSec x ∧
+    (toUtc x).time.h < 24 ∧ (toUtc x).time.mi < 60 ∧ (toUtc x).time.s = x.time.s := by
+  have h := toUtc_instant x hx hfirst
+  exact ⟨response_header mime hdrFields hp attrs ret n occ t hf (.dt x) _ hv rfl, h.2.1, h.1, h.2.2⟩
 
 /-- raw bytes (ByteArray) are sent as they are -/
 theorem return_bytes_exact (mime : Text) (hdrFields : List Fld) (hdr : Node) (chunks : List (List Nat)) :
@@ -226,12 +244,13 @@ example : decode facts03 ⟨false, false, Ex.dot⟩ Ex.sig
   documented_any_order ⟨false, false, Ex.dot⟩ Ex.sig Ex.sparse _ rfl rfl Ex.sig_wf Ex.sig_keys Ex.sparse_wt
     (by decide +kernel)
 
-/-- twelve elements with strict arrays are accepted by the current tree (model, computed) -/
-example : Ex.isOk (decode facts03 ⟨true, false, Ex.dot⟩ Ex.sig Ex.twelve) = true := by decide +kernel
-
 example : (insertAll [(7, 'c'), (0, 'a'), (3, 'b')] ([], [])).2 = ['a', 'b', 'c'] := by decide
 example : unquote (quote "a&b=c é✓".toList) = "a&b=c é✓".toList := percent_coding_lossless _
 example : parseQs facts03 "p=1&q=2;p=%33+".toList =
     [("p".toList, [some "1".toList, some "3 ".toList]), ("q".toList, [some "2".toList])] := by decide
+
+/-- 01:30 at UTC+03:00 on 1 January is 22:30 GMT on 31 December -/
+example : httpDate ⟨⟨2013, 1, 1⟩, ⟨1, 30, 0, 0⟩, some 180⟩ = "Mon, 31 Dec 2012 22:30:00 GMT".toList := by decide +kernel
+example : httpDate ⟨⟨2013, 1, 1⟩, ⟨0, 0, 0, 0⟩, none⟩ = "Tue, 01 Jan 2013 00:00:00 GMT".toList := by decide +kernel
 
 end SpyneModel.Props.C03
